@@ -50,9 +50,9 @@ Proof.
   - inversion Hn as [|h' t' Hh Ht]; subst h' t'.
     destruct h as [hn hv]. cbn [fst snd] in *.
     rewrite !len_zero_nil.
-    destruct hn as [|n0 nt]; [contradiction|]. cbn [orb].
-    destruct hv as [|v0 vt].
-    + rewrite app_nil_r. reflexivity.
+    destruct hn as [|n0 nt]; [contradiction|].
+    destruct hv as [|v0 vt]; cbn [orb andb negb].
+    + rewrite ?app_nil_r. reflexivity.
     + unfold builder_header. rewrite IH by exact Ht. cbn [fst snd]. rewrite <- app_assoc. reflexivity.
 Qed.
 
